@@ -252,14 +252,15 @@ prop("C08",
                 "contains no '<' or '>', inside raw text it is written verbatim and a '</' is reported; the raw-text flag is "
                 "set exactly between the tags of a raw-text element and is local to one serialize() call (frame obligation); "
                 "comments with '--' are reported; every attribute value has & (and < on request) escaped whether or not it is "
-                "quoted, is quoted when the mode requires it, and never contains its own quote character.",
+                "quoted, is quoted when the mode requires it, and never contains its own quote character; a doctype's identifiers "
+                "are delimited by a quote character they do not contain (or an error is reported).",
      level_note="Trusted: pyvc, z3; str.replace as an opaque function with the library facts listed in pyvc/engine.py. These are "
                 "the local lexical conditions; that they imply 're-tokenising yields the same token' (the lemma over the C02 "
                 "spec machine) is NOT mechanised in this revision. Known finding: noscript text is written raw although the "
                 "parser (scripting off) reads it as markup (ground obligation 'serializer tables agree with the parser'). Observed "
                 "while reading and NOT covered by any obligation: attribute namespace prefixes dropped, CR in text, comment data "
                 "starting/ending with '-', trailing solidus glued to an unquoted value.",
-     not_decided=["lexical lemma: output re-tokenises to the same tokens", "doctype and Entity tokens", "encoded output (bytes)"],
+     not_decided=["lexical lemma: output re-tokenises to the same tokens", "Entity tokens", "encoded output (bytes)"],
      explanation="loop body under a step contract, bounded in attribute count")
 
 
